@@ -6,6 +6,7 @@ import (
 	"net"
 	"os"
 	"runtime"
+	"runtime/debug"
 	"strings"
 	"sync"
 	"time"
@@ -282,6 +283,10 @@ func runSlots(in []string) string {
 	st := newSteer()
 	modbus.VerifSetYield(st.yield)
 	defer modbus.VerifSetYield(nil)
+	// a connection the server forgets to close would otherwise be closed behind
+	// its back by the finalizer of the collected net.Conn: keep the collector
+	// out of the way for the duration of the trace
+	defer debug.SetGCPercent(debug.SetGCPercent(-1))
 
 	maxc := atoi(in[0])
 	h := &countHandler{}
